@@ -727,7 +727,7 @@ def run(ctx):
         ctx.count("corpus")
         ctx.case({"argv": c["argv"], "world": c["world"]["id"]}, nontrivial=True)
         check_invocation(ctx, c, drv)
-    nworlds = 20 if quick else 400
+    nworlds = 20 if quick else 1000
     per_world = 15 if quick else 16
     n = 0
     for w in range(nworlds):
